@@ -64,6 +64,8 @@ def cases(ctx):
             ren = {g: i + sfx for g, i in zip(r.sample(gates, min(len(gates), len(ins))), ins)}
             nx.relabel_nodes(c.graph, ren, copy=False)
         yield {"op": "roundtrip", "c": proj(c), "src": "G3"}
+        if j % 3 == 0:
+            yield {"op": "roundtrip", "c": proj(c), "twice": True, "src": "G3x2"}
     from .C18 import rand_cyclic
 
     n = 0
@@ -96,6 +98,9 @@ def run_case(case, ctx):
     try:
         text = cg.io.circuit_to_bench(c)
         c2 = cg.io.bench_to_circuit(text, c.name)
+        if case.get("twice"):
+            text = cg.io.circuit_to_bench(c2)
+            c2 = cg.io.bench_to_circuit(text, c.name)
     except Exception as e:
         exc = type(e).__name__
     p = case["c"]
